@@ -2073,7 +2073,11 @@ def _cbcoordchk(fout, K, bset, refpoint, grids, ttl, verbose, rb_normalizer):
         raise ValueError("reference point must have length of 6")
 
     # make refpoint be relative to b-set:
-    refpoint = refpoint - np.min(bset)  # not -= because that can change bset
+    bset = np.atleast_1d(bset)
+    try:
+        refpoint = np.array([(bset == r).nonzero()[0][0] for r in refpoint])
+    except IndexError:
+        raise ValueError("reference point must be a subset of the b-set")
 
     kbb = K[np.ix_(bset, bset)]
 
